@@ -26,6 +26,9 @@ Inductive hval :=
 | HM (l : list (str * hval))        (* entries in iteration order *)
 | HFmt (cell : bool) (colspan : N) (style : sty) (v : hval)
 | HLnk (link : str) (v : hval)
+| HFmtClo (cell : bool) (colspan : N) (r : hval) (v : hval)
+    (* Format whose style is a closure with one argument that succeeds: r is the value the closure returns
+       for v (given with the case; the closure itself is the expression language's business) *)
 | HFile (name mime b64 size : str). (* export.File: name, MimeType, base64 of the data and the byteSize text (both Go's) *)
 
 Definition s_table : str := [116; 97; 98; 108; 101].
@@ -250,6 +253,12 @@ Definition to_td_with (html : hval -> sty -> list str -> res) (d : hval) (cls : 
       else
         let '(a, cls1) := style_attr inline fst_ cls in
         bind (html inner SNone cls1) (fun o cls2 => Some (OOpen s_td :: span ++ a ++ o ++ [OClose], cls2))
+  | HFmtClo cell cs r inner =>
+      let span := if 1 <? cs then [OAttr s_colspan (itoa cs)] else [] in
+      if is_HL inner && negb cell then       (* toHtml(inner, closure) = toHtml(closure(inner), nil) *)
+        bind (html r SNone cls) (fun o cls1 => Some (OOpen s_td :: span ++ o ++ [OClose], cls1))
+      else                                   (* a closure gives no style string; it is not evaluated *)
+        bind (html inner SNone cls) (fun o cls1 => Some (OOpen s_td :: span ++ o ++ [OClose], cls1))
   | _ => bind (html d SNone cls) (fun o cls1 => Some (OOpen s_td :: o ++ [OClose], cls1))
   end.
 
@@ -271,6 +280,7 @@ Fixpoint to_html (v : hval) (st : sty) (cls : list str) {struct v} : res :=
   let to_td := to_td_with to_html in
   match v with
   | HFmt _ _ f inner => to_html inner f cls
+  | HFmtClo _ _ r _ => to_html r SNone cls           (* res := cl.Eval(st, v); return toHtml(res, nil) *)
   | HLnk l inner =>
       bind (to_html inner st cls) (fun o cls1 => Some (OOpen s_a :: OAttr s_href l :: o ++ [OClose], cls1))
   | HFloat s => Some ([OWrite s], cls)
@@ -356,6 +366,7 @@ Fixpoint legal_h (v : hval) : bool :=
   | HM l => forallb (fun kv => legal (fst kv) && legal_h (snd kv)) l
   | HFmt _ _ st v => legal_sty st && legal_h v
   | HLnk l v => legal l && legal_h v
+  | HFmtClo _ _ r v => legal_h r && legal_h v
   | HFile name mime b64 size => legal name && legal mime && legal b64 && legal size
   end.
 
@@ -368,6 +379,7 @@ Fixpoint pfree (v : hval) : bool :=
   | HM l => forallb (fun kv => pfree (snd kv)) l
   | HFmt _ _ st v => negb (has_plain st) && pfree v
   | HLnk _ v => pfree v
+  | HFmtClo _ _ r v => pfree r && pfree v
   end.
 
 (* when rendering must fail: toHtml(v, st) reaches, within the maxListSize cut-offs, a value whose style is a
@@ -379,6 +391,7 @@ Inductive fails : hval -> sty -> Prop :=
 | F_here : forall v, fails v SCloErr
 | F_fmt : forall c cs f inner st, fails inner f -> fails (HFmt c cs f inner) st
 | F_lnk : forall l inner st, fails inner st -> fails (HLnk l inner) st
+| F_clo : forall c cs r inner st, fails r SNone -> fails (HFmtClo c cs r inner) st
 | F_map : forall l k e st, In (k, e) l -> fails_td e -> fails (HM l) st
 | F_plain : forall items e st, has_plain st = true -> In e items -> fails e SNone -> fails (HL items) st
 | F_list : forall items first i e st, has_plain st = false ->
@@ -406,6 +419,10 @@ with fails_td : hval -> Prop :=
 | T_list : forall cs f inner, is_HL inner = true -> fails inner f -> fails_td (HFmt false cs f inner)
 | T_other : forall cell cs f inner, is_HL inner && negb cell = false -> fails inner SNone ->
     fails_td (HFmt cell cs f inner)
-| T_plain : forall d, (match d with HFmt _ _ _ _ => false | _ => true end) = true -> fails d SNone -> fails_td d.
+| T_clo_list : forall cs r inner, is_HL inner = true -> fails r SNone -> fails_td (HFmtClo false cs r inner)
+| T_clo_other : forall cell cs r inner, is_HL inner && negb cell = false -> fails inner SNone ->
+    fails_td (HFmtClo cell cs r inner)
+| T_plain : forall d, (match d with HFmt _ _ _ _ | HFmtClo _ _ _ _ => false | _ => true end) = true ->
+    fails d SNone -> fails_td d.
 
 End Fails.
